@@ -14,7 +14,7 @@
    (or genesis time), evidence within the byte limit.  VerifyCommit is TM.C07's model. *)
 From Coq Require Import List ZArith NArith Bool Permutation.
 From TM Require Import Common.Hex Generated.Consts C07.Model C07.Proofs C06.Model C06.PExact
-     C06.Proofs C06.PMedian C06.PSizes C06.PResults.
+     C06.Proofs C06.PMedian C06.PSizes C06.PResults C06.ModelF84 C06.PF84.
 Import ListNotations.
 Open Scope Z_scope.
 
@@ -472,3 +472,146 @@ Proof.
   split; [vm_compute; discriminate|]. split; [vm_compute; discriminate|].
   vm_compute. repeat split; discriminate.
 Qed.
+
+(* ---- F84: the weights of the median are those of the verified signers ------------------- *)
+
+(* [validate_block] above transcribes validateBlock as it stands.  VerifyCommit finds the signer of
+   slot i by position and never reads the slot's ValidatorAddress; MedianTime weighs the timestamp
+   of slot i by looking that (unsigned) address up and skips a slot that names nobody.  So
+   "time = weighted median of the previous commit" holds only for the weights the proposer chose
+   to write into the commit: C06_median_between_honest cannot be applied to an accepted block.
+   The regression witness: four validators of power 5, the first three stamp 2000/3000/2500, the
+   fourth 9000000; relabelling the first three slots with the address 99 of nobody leaves
+   VerifyCommit satisfied, the unrepaired function accepts the block and its time is 9000000. *)
+Definition f84_vals : list validator := ex_vals ++ [ {| v_addr := 4; v_key := 14; v_power := 5 |} ].
+Definition f84_st : state :=
+  {| st_vblock := 11; st_vapp := 0; st_chain := {| hv_id := 1; hv_len := 5 |}; st_initial := 1;
+     st_last_height := 1; st_last_bid := ex_bid; st_last_time := 1000;
+     st_next_vals := f84_vals; st_vals := f84_vals; st_last_vals := f84_vals; st_lhvc := 1;
+     st_params := ex_params; st_lhpc := 1;
+     st_results_hash := {| hv_id := 9; hv_len := 32 |}; st_app_hash := {| hv_id := 8; hv_len := 32 |} |}.
+Definition f84_commit (a1 a2 a3 : Z) : commit6 isig :=
+  {| cm_height := 1; cm_round := 0; cm_bid := ex_bid;
+     cm_sigs := [ex_slot a1 11 2000; ex_slot a2 12 3000; ex_slot a3 13 2500; ex_slot 4 14 9000000] |}.
+Definition f84_block (c : commit6 isig) : block isig Z bool :=
+  make_block ex_Hc ex_Hd ex_He ex_Hv ex_Hp f84_st 2 [10; 20] c [] {| hv_id := 4; hv_len := 20 |}.
+Definition f84_validate :=
+  validate_block ideal_verify (fun x : bool => x) (fun _ => 0) ex_Hc ex_Hd ex_He ex_Hv ex_Hp f84_st.
+Definition f84_validate_r :=
+  validate_block_r ideal_verify (fun x : bool => x) (fun _ => 0) ex_Hc ex_Hd ex_He ex_Hv ex_Hp f84_st.
+
+Example C06_median_by_address_refuted :
+  f84_validate (f84_block (f84_commit 99 99 99)) = None /\
+  h_time (b_h (f84_block (f84_commit 99 99 99))) = 9000000 /\
+  signer_entries f84_vals (cm_sigs (f84_commit 99 99 99))
+    = [(2000, 5); (3000, 5); (2500, 5); (9000000, 5)] /\
+  ~ (2000 <= h_time (b_h (f84_block (f84_commit 99 99 99))) <= 3000).
+Proof.
+  split; [vm_compute; reflexivity|]. split; [vm_compute; reflexivity|].
+  split; [vm_compute; reflexivity|]. vm_compute. intros [_ H]. apply H. reflexivity.
+Qed.
+
+(* The repaired validateBlock ([validate_block_r], ModelF84.v: after VerifyCommit every non-absent
+   slot i must name LastValidators[i]) accepts exactly when the conjunction of the property holds
+   WITH that conjunct.  C06_validate_exact stays true of the unrepaired transcription; this is the
+   statement for the repaired one. *)
+Theorem C06_validate_exact_repaired :
+  forall (sig : Type) (sv : key -> signmsg -> sig -> bool) (tx ev : Type)
+         (ev_valid : ev -> bool) (ev_size : list ev -> Z)
+         (Hc : list (slot sig) -> hv) (Hd : list tx -> hv) (He : list ev -> hv)
+         (Hv : list validator -> hv) (Hp : Z -> Z -> hv) (st : state) (b : block sig tx ev),
+    validate_block_r sv ev_valid ev_size Hc Hd He Hv Hp st b = None <->
+    specb sv ev_valid ev_size Hc Hd He Hv Hp st b = true /\ commit_addresses_ok st b = true.
+Proof. exact validate_r_exact_conj. Qed.
+Print Assumptions C06_validate_exact_repaired.
+
+(* C06_accepted_commit_and_time with the new conjunct *)
+Theorem C06_accepted_commit_and_time_repaired :
+  forall (sig : Type) (sv : key -> signmsg -> sig -> bool) (tx ev : Type)
+         (ev_valid : ev -> bool) (ev_size : list ev -> Z)
+         (Hc : list (slot sig) -> hv) (Hd : list tx -> hv) (He : list ev -> hv)
+         (Hv : list validator -> hv) (Hp : Z -> Z -> hv) (st : state) (b : block sig tx ev),
+    validate_block_r sv ev_valid ev_size Hc Hd He Hv Hp st b = None ->
+    exists c, b_lc b = Some c /\
+      ((h_height (b_h b) = st_initial st /\ cm_sigs c = [] /\ h_time (b_h b) = st_last_time st)
+       \/
+       (st_initial st < h_height (b_h b) /\
+        verify_commit sv (st_last_vals st) (hv_id (st_chain st)) (bi_code (st_last_bid st))
+                      (h_height (b_h b) - 1) (to_commit c) = R_ok /\
+        slots_name_validators (st_last_vals st) (cm_sigs c) = true /\
+        st_last_time st < h_time (b_h b) /\ h_time (b_h b) = median_time c (st_last_vals st))).
+Proof. exact accepted_commit_and_time_r. Qed.
+Print Assumptions C06_accepted_commit_and_time_repaired.
+
+(* For an accepted block after the first, over a validator set with distinct addresses: the
+   (time, weight) entries MedianTime uses are exactly (timestamp of slot i, power of validator i)
+   for the non-absent slots — the validators whose signatures VerifyCommit checked — and the block
+   time is their weighted median for their total weight. *)
+Theorem C06_accepted_median_entries_are_signers :
+  forall (sig : Type) (sv : key -> signmsg -> sig -> bool) (tx ev : Type)
+         (ev_valid : ev -> bool) (ev_size : list ev -> Z)
+         (Hc : list (slot sig) -> hv) (Hd : list tx -> hv) (He : list ev -> hv)
+         (Hv : list validator -> hv) (Hp : Z -> Z -> hv) (st : state) (b : block sig tx ev)
+         (c : commit6 sig),
+    wf_valset (st_last_vals st) -> NoDup (map v_addr (st_last_vals st)) ->
+    validate_block_r sv ev_valid ev_size Hc Hd He Hv Hp st b = None ->
+    b_lc b = Some c -> h_height (b_h b) <> st_initial st ->
+    length (st_last_vals st) = length (cm_sigs c) /\
+    median_entries (st_last_vals st) (cm_sigs c) = signer_entries (st_last_vals st) (cm_sigs c) /\
+    h_time (b_h b) = weighted_median (signer_entries (st_last_vals st) (cm_sigs c))
+                                     (wsum (signer_entries (st_last_vals st) (cm_sigs c))).
+Proof. exact accepted_entries_are_signers. Qed.
+Print Assumptions C06_accepted_median_entries_are_signers.
+
+(* Hence C06_median_between_honest applies to every accepted block: [honest] marks the entries of
+   correct signers; if the others weigh less than half (integer division) of what the commit
+   carries, the block time lies between the earliest and the latest honest timestamp ... *)
+Theorem C06_accepted_block_time_between_honest :
+  forall (sig : Type) (sv : key -> signmsg -> sig -> bool) (tx ev : Type)
+         (ev_valid : ev -> bool) (ev_size : list ev -> Z)
+         (Hc : list (slot sig) -> hv) (Hd : list tx -> hv) (He : list ev -> hv)
+         (Hv : list validator -> hv) (Hp : Z -> Z -> hv) (st : state) (b : block sig tx ev)
+         (c : commit6 sig) (honest : wt -> bool) (lo hi : Z),
+    wf_valset (st_last_vals st) -> NoDup (map v_addr (st_last_vals st)) ->
+    validate_block_r sv ev_valid ev_size Hc Hd He Hv Hp st b = None ->
+    b_lc b = Some c -> h_height (b_h b) <> st_initial st ->
+    let l := signer_entries (st_last_vals st) (cm_sigs c) in
+    in_range l ->
+    wsum_if (fun e => negb (honest e)) l < Z.quot (wsum l) 2 ->
+    Z.quot (wsum l) 2 <= wsum_if honest l ->
+    (forall e, In e l -> honest e = true -> lo <= fst e <= hi) ->
+    lo <= h_time (b_h b) <= hi.
+Proof. exact accepted_time_between_honest. Qed.
+Print Assumptions C06_accepted_block_time_between_honest.
+
+(* ... in particular when the faulty signers hold less than one third of the power the commit
+   carries (at least 2). *)
+Theorem C06_accepted_block_time_third :
+  forall (sig : Type) (sv : key -> signmsg -> sig -> bool) (tx ev : Type)
+         (ev_valid : ev -> bool) (ev_size : list ev -> Z)
+         (Hc : list (slot sig) -> hv) (Hd : list tx -> hv) (He : list ev -> hv)
+         (Hv : list validator -> hv) (Hp : Z -> Z -> hv) (st : state) (b : block sig tx ev)
+         (c : commit6 sig) (honest : wt -> bool) (lo hi : Z),
+    wf_valset (st_last_vals st) -> NoDup (map v_addr (st_last_vals st)) ->
+    validate_block_r sv ev_valid ev_size Hc Hd He Hv Hp st b = None ->
+    b_lc b = Some c -> h_height (b_h b) <> st_initial st ->
+    let l := signer_entries (st_last_vals st) (cm_sigs c) in
+    in_range l -> 2 <= wsum l ->
+    3 * wsum_if (fun e => negb (honest e)) l < wsum l ->
+    (forall e, In e l -> honest e = true -> lo <= fst e <= hi) ->
+    lo <= h_time (b_h b) <= hi.
+Proof. exact accepted_time_between_honest_third. Qed.
+Print Assumptions C06_accepted_block_time_third.
+
+(* non-vacuity: the repaired function refuses the relabelled commit of the witness above, accepts
+   the same commit with the validators' own addresses, whose block time 2500 lies between the
+   honest timestamps although the fourth validator stamped 9000000; the premises hold *)
+Example C06_repaired_nonvacuous :
+  f84_validate_r (f84_block (f84_commit 99 99 99)) = Some VR_commit_address /\
+  f84_validate_r (f84_block (f84_commit 2 1 3)) = Some VR_commit_address /\
+  f84_validate_r (f84_block (f84_commit 1 2 3)) = None /\
+  h_time (b_h (f84_block (f84_commit 1 2 3))) = 2500 /\
+  wf_valsetb f84_vals = true /\ map v_addr f84_vals = [1; 2; 3; 4] /\
+  wsum (signer_entries f84_vals (cm_sigs (f84_commit 1 2 3))) = 20 /\
+  wsum_if (fun e => negb (fst e <? 5000)) (signer_entries f84_vals (cm_sigs (f84_commit 1 2 3))) = 5.
+Proof. vm_compute. repeat split; reflexivity. Qed.
